@@ -368,10 +368,21 @@ def soc_scalar_cap(rep, F, tag, rid):
                 R.bad('guard-decided|%s%s' % (ret[1][:24], tag), 'a path returns %s without having tested whether the scalar part limits the step' % (ret[1],), f.loc())
                 continue
             if g1 and g1[0] and g2 and g2[0]:
-                caps = [e for e in ev if e[0] == 'call' and e[1] == 'min' and 'div(neg(arg1[0_usize]), arg2[0_usize])' in e[2]]
+                CAP = 'div(neg(arg1[0_usize]), arg2[0_usize])'
+                caps = [e for e in ev if e[0] == 'call' and e[1] == 'min' and CAP in e[2]]
+                holders = set('var:' + e[1] for e in ev if e[0] == 'assign' and e[2] and CAP in str(e[2]))
+                for e in ev:
+                    if e[0] == 'assign' and isinstance(e[4], dict) and e[1]:
+                        # a plain copy of the capped temporary into a named variable
+                        v_ = canon(f.sym_rvalue(e[4]['rv']))
+                        if CAP in v_:
+                            holders.add('var:' + e[1])
                 capped += 1
-                R.check(len(caps) >= 1, 'cap-applied|%s%s' % (ret[1][:24], tag),
-                        'with x0 >= 0 and y0 < 0 a path returns %s without alpha_max = min(alpha_max, -x0/y0): the step can leave the cone through its scalar part' % (ret[1],), f.loc())
+                r = str(ret[1])
+                uses = CAP in r or r == 'zero()' or any(h_ in r for h_ in holders)
+                R.check(len(caps) >= 1 and uses, 'cap-applied|%s%s' % (r[:24], tag),
+                        'with x0 >= 0 and y0 < 0 a path returns %s, which does not derive from min(alpha_max, -x0/y0) (cap %s): the step can leave the '
+                        'cone through its scalar part' % (r, 'computed but not used' if caps else 'missing'), f.loc())
         R.check(n >= 10 and capped >= 3, 'paths' + tag, 'only %d returning paths (%d with an active scalar cap) analysed' % (n, capped), f.loc())
 
     R.guard(body)
